@@ -246,6 +246,7 @@ class Checker:
         self.ncorr = collections.Counter()
         self.live_classes = set()
         self.gen_invalid = 0
+        self.ndefsamples = 0
 
     # ---- driver requests are batched
     def ask(self, line, cb):
@@ -413,8 +414,10 @@ class Checker:
             self.hist['def:' + outcome] += 1
             for ft in feats:
                 self.feat_hist[ft] += 1
-            if len(run.samples) < 2 and 'tq_string' in feats and 'indented' in feats and outcome == 'same':
-                run.sample({'kind': 'def', 'block': dc.src, 'recovered_source': dc.source, 'outcome': outcome})
+            if self.ndefsamples < 2 and 'tq_string' in feats and 'indented' in feats and outcome == 'same' \
+                    and len(dc.src) < 900:
+                self.ndefsamples += 1
+                run.samples.insert(0, {'kind': 'def', 'block': dc.src, 'recovered_source': dc.source, 'outcome': outcome})
             if outcome != 'same':
                 explained = unfold_explains(text, dc.first, dc.src, outcome, dc.payload)
 
@@ -509,6 +512,17 @@ class Checker:
                         sel = same[0] if len(same) == 1 else None
                     real = ('ok', sel._c15_id if sel is not None else -1)
                     real_dump = ast.dump(node)
+                    # observation only (not part of the property's statement about the TREE): is the returned
+                    # source text the text of the returned expression?  (_without_context slices str lines with
+                    # the AST's utf-8 byte offsets and rstrips every line)
+                    try:
+                        back = ast.parse('(' + source + '\n)', mode='eval').body
+                        text_ok = ast.dump(back) == real_dump
+                    except SyntaxError:
+                        text_ok = False
+                    self.hist['lambda-source-text:' + ('is-the-expression' if text_ok else 'IS-NOT-the-expression')] += 1
+                    if not text_ok and not self.run.cov.get('lambda_source_text_example'):
+                        self.run.cov['lambda_source_text_example'] = {'line': text.split('\n')[def_line - 1][:200], 'returned_source': source[:200]}
                 except errors.UnsupportedLanguageElementError as e:
                     m = str(e)
                     real = ('nomatch',) if 'no matching AST found' in m else ('ambiguous',) if 'multiple definitions' in m else ('unsupported-other',)
